@@ -300,3 +300,37 @@ Proof.
   split; [exact Y|]. destruct (C_cnt _ _ (binvc_reach n n_pos _ R)) as [Cc Ca]. lia.
 Qed.
 End BarrierQuiescence.
+
+(* ---------------------------------------------------------------------------------------- non-vacuity *)
+Lemma bquiescent_by_cases n s :
+  (forall a, bstep n s (BStep a) = None /\ bstep n s (BInner a (Step a)) = None /\ bstep n s (BInner a (Resume a)) = None /\
+             bstep n s (BInner a (Choose a true)) = None /\ bstep n s (BInner a (Choose a false)) = None) -> BQuiescent n s.
+Proof.
+  intros H a. destruct (H a) as (H1 & H2 & H3 & H4 & H5). split; [exact H1|]. intro c.
+  destruct (inner_ok a c) eqn:Ok; [| unfold bstep; rewrite Ok; reflexivity].
+  destruct c; cbn in Ok; try discriminate; apply Nat.eqb_eq in Ok; subst; auto. destruct e; auto.
+Qed.
+
+(* Barrier(2): generation 0 is passed by actors 0 and 1, then actor 0 arrives again and is parked for generation 1 in a
+   quiescent state; generation 0 has been left by both of its arrivals, one of them as the leader *)
+Definition bsched_park : list baction :=
+  bgen 0 1 ++ [BArrive 0 false; BStep 0; BStep 0] ++ repeat (BInner 0 (Step 0)) 4.
+Example barrier_parked_for_next_generation : exists s, brun 2 binit bsched_park = Some s /\ BReach 2 s /\ BQuiescent 2 s /\
+  gen s = 1 /\ bpc s 0 = BWait /\ lgen s 0 = 1 /\ bpc s 1 = BIdle /\ arr s 0 = 2 /\ ret s 0 = 1 /\ lret s 0 = 1 /\ arr s 1 = 1.
+Proof.
+  destruct (brun 2 binit bsched_park) as [s|] eqn:E; [|vm_compute in E; discriminate].
+  exists s. split; [reflexivity|]. split; [eapply breach_brun; [constructor | exact E]|].
+  vm_compute in E. inversion E; subst; clear E. split; [|cbn; repeat split; reflexivity].
+  apply bquiescent_by_cases. intro a. destruct a as [|[|a]]; vm_compute; repeat split; try reflexivity; match goal with |- (if ?c then _ else _) = _ => destruct c; reflexivity end.
+Qed.
+
+(* reusable by more parties than n: three actors take turns through Barrier(2), three generations, every pair once *)
+Example barrier_three_parties_three_generations : exists s, brun 2 binit (bgen 0 1 ++ bgen 2 0 ++ bgen 1 2) = Some s /\ BReach 2 s /\ BQuiescent 2 s /\
+  gen s = 3 /\ (forall g, g < 3 -> arr s g = 2 /\ ldr s g = 1 /\ lret s g = 1 /\ ret s g = 1) /\ inl s = [] /\ viol s = false /\ mx (cs s) = None.
+Proof.
+  destruct (brun 2 binit (bgen 0 1 ++ bgen 2 0 ++ bgen 1 2)) as [s|] eqn:E; [|vm_compute in E; discriminate].
+  exists s. split; [reflexivity|]. split; [eapply breach_brun; [constructor | exact E]|].
+  vm_compute in E. inversion E; subst; clear E. split.
+  - apply bquiescent_by_cases. intro a. destruct a as [|[|[|a]]]; vm_compute; repeat split; try reflexivity; match goal with |- (if ?c then _ else _) = _ => destruct c; reflexivity end.
+  - cbn. repeat split; try reflexivity; destruct g as [|[|[|g]]]; try lia; reflexivity.
+Qed.
